@@ -37,6 +37,9 @@ func Yield()            {}
 func Drain()            {}
 func NoPreempt(on bool) {}
 
+// SchedOnlyAtYield restricts pre-emptive scheduling points to vx.Yield (blocking operations still switch).
+func SchedOnlyAtYield(on bool) {}
+
 // ---- faults ----
 
 func Fault(domain, site string) bool   { return nextDecision("fault:"+domain+":"+site, 2) == 1 }
